@@ -41,7 +41,9 @@ def rule_once_conv(ctx):
     bb = sites[0][1]
     ctx.ob("ONCE-CONV", "the conversion is not in a loop", not body.in_loop(bb) and not body.back_edges(), fn=key, site=body.site(bb), detail="")
     arg = models._region(norm(body.resolve_operand(body.term(bb)["args"][0])))
-    ctx.ob("ONCE-CONV", "the conversion receives the raw type substring exactly as written", arg == faults.TYPE or faults.loosen(arg) == faults.loosen(faults.TYPE), fn=key, site=body.site(bb), detail=models.show_region(arg))
+    # "exactly as written": the argument is a plain sub-region of the input (splits/trims only; no decoding, re-casing or copy);
+    # WHICH sub-region is the grammar's business (C02)
+    ctx.ob("ONCE-CONV", "the conversion receives a raw substring of the input, exactly as written", models.region_ok(arg), fn=key, site=body.site(bb), detail=models.show_region(arg))
     atoms = [models.canon_atom(a) for _, a in atoms_at(body, bb)]
     ok = any(c[0] == "pred" and c[1] == "is_valid_package_type" and c[3] is True and c[2] == (arg,) for c in atoms)
     ctx.ob("ONCE-CONV", "valid_type(x) dominates T::from_str(x) with the same x", ok, fn=key, site=body.site(bb), detail="; ".join(show_canon(c) for c in atoms)[:300])
